@@ -46,7 +46,9 @@ MANIFEST = dict(
                 "values [A,B,B,A]) and PROVED for the code with the delete list sorted (C20_partition_inv_fixed, C20_partition_ops, "
                 "C20_coalesce_outside_known); totality of expr_to_guard is refuted as well (C20_guard_total_refuted, C20_debug_asserts_refuted) and "
                 "characterised exactly (C20_guard_total_on_guardable). Tie to /repo: extracted model vs. the real ValueSummary<ExprRef>/GuardCtx through "
-                "cfg(patronus_verif) hooks after every step of every generated history, in the debug and the release profile; independent oracle over all 2^n valuations."),
+                "cfg(patronus_verif) hooks after every step of every generated history, in the debug and the release profile; independent oracle over all 2^n valuations. "
+                "Repaired variant (model parameter `repairs`, patches/C20-1..3): C20_guard_total_repaired (expr_to_guard returns an equivalent guard for EVERY well-typed "
+                "boolean expression, both builds) and C20_no_panic_repaired (apply_ite/import return for boolean conditions, apply_bin_op returns for all reachable summaries)."),
     level_note=("Four genuine defects are recorded as known findings and re-observed on every run (coalesce overlap; expr_to_guard panics on any terminal "
                 "with a non-boolean child, e.g. a == b over bv8; two debug assertions that fire on legitimate inputs). The partition theorem is about the "
                 "REPAIRED coalesce (one-line fix: sort the delete list) - for the current code only the weaker functional invariant is a theorem. "
